@@ -39,7 +39,7 @@ type c11Case struct {
 
 var (
 	c11Shapes = []string{"single", "alternative", "body+attachment", "body+embed", "attachment-only", "two-preformatted-headers", "smime-single", "smime+attachment", "two-attachments-only", "body-writer+file-writer (switchable source fault)"}
-	c11Srcs   = []string{"reader", "readseeker", "file", "fs.FS", "text-template"}
+	c11Srcs   = []string{"reader", "readseeker", "file", "fs.FS", "text-template", "reader(*bytes.Reader, partially consumed)", "reader(*strings.Reader)", "readseeker(partially consumed)", "reader(*os.File)"}
 	c11Ops    = []string{"WriteTo", "Write", "NewReader", "UpdateReader", "WriteToFile", "WriteToTempFile", "Send", "WriteTo(sink fails at 0)", "WriteTo(sink fails mid-way)",
 		"WriteTo(while the content source fails)", "NewReader(while the content source fails)", "UpdateReader(while the content source fails)", "Send(while the content source fails)"}
 )
@@ -122,6 +122,44 @@ func c11Build(cfg c11Cfg, dir string) (*mail.Msg, error) {
 				note(m.EmbedReader(name, bytes.NewBuffer(append([]byte{}, c11FileContent...)), fo...))
 			} else {
 				note(m.AttachReader(name, bytes.NewBuffer(append([]byte{}, c11FileContent...)), fo...))
+			}
+		case "reader(*bytes.Reader, partially consumed)":
+			// the caller has already read a prefix: the file content is what is left to read
+			br := bytes.NewReader(append([]byte("ALREADY-CONSUMED-PREFIX"), c11FileContent...))
+			_, _ = br.Seek(int64(len("ALREADY-CONSUMED-PREFIX")), io.SeekStart)
+			if embed {
+				note(m.EmbedReader(name, br, fo...))
+			} else {
+				note(m.AttachReader(name, br, fo...))
+			}
+		case "reader(*strings.Reader)":
+			if embed {
+				note(m.EmbedReader(name, strings.NewReader(string(c11FileContent)), fo...))
+			} else {
+				note(m.AttachReader(name, strings.NewReader(string(c11FileContent)), fo...))
+			}
+		case "readseeker(partially consumed)":
+			br := bytes.NewReader(append([]byte("ALREADY-CONSUMED-PREFIX"), c11FileContent...))
+			_, _ = br.Seek(int64(len("ALREADY-CONSUMED-PREFIX")), io.SeekStart)
+			if embed {
+				m.EmbedReadSeeker(name, br, fo...)
+			} else {
+				m.AttachReadSeeker(name, br, fo...)
+			}
+		case "reader(*os.File)":
+			p := filepath.Join(dir, "osfile-"+name)
+			if _, serr := os.Stat(p); serr != nil {
+				note(os.WriteFile(p, c11FileContent, 0o644))
+			}
+			fh, ferr := os.Open(p)
+			note(ferr)
+			if ferr == nil {
+				if embed {
+					note(m.EmbedReader(name, fh, fo...))
+				} else {
+					note(m.AttachReader(name, fh, fo...))
+				}
+				_ = fh.Close()
 			}
 		case "readseeker":
 			if embed {
@@ -370,7 +408,7 @@ func init() {
 	vf.Register(&vf.Check{
 		ID: "C11", Title: "rendering is repeatable and all output paths agree",
 		Run: func(r *vf.Run) {
-			r.SetRule("message shapes {single, alternative, body+attachment, body+embed, attachment-only, two attachments only, three preformatted headers, S/MIME single, S/MIME+attachment} × file source {reader, read-seeker, file, fs.FS, text template} × file encoding {base64, 8bit, QP} × ALL sequences of length 2..L over the 9 render operations {WriteTo, Write, NewReader, UpdateReader, WriteToFile, WriteToTempFile, Send (server commit log), WriteTo into a sink failing at 0, … failing mid-way, and WriteTo / NewReader / UpdateReader / Send while the content source (body or file writer function) fails} × map-iteration start 0..7 per operation (<=1 operation deviating from start 0; thorough <=2) through the runtime seam; Date, Message-ID and boundaries are generated by go-mail on first use; every successful output must equal the first; distinct by (configuration, operation sequence, map starts)")
+			r.SetRule("message shapes {single, alternative, body+attachment, body+embed, attachment-only, two attachments only, three preformatted headers, S/MIME single, S/MIME+attachment} × file source {io.Reader (buffer, *bytes.Reader partially consumed, *strings.Reader, *os.File), read-seeker (fresh and partially consumed), file, fs.FS, text template} × file encoding {base64, 8bit, QP} × ALL sequences of length 2..L over the 9 render operations {WriteTo, Write, NewReader, UpdateReader, WriteToFile, WriteToTempFile, Send (server commit log), WriteTo into a sink failing at 0, … failing mid-way, and WriteTo / NewReader / UpdateReader / Send while the content source (body or file writer function) fails} × map-iteration start 0..7 per operation (<=1 operation deviating from start 0; thorough <=2) through the runtime seam; Date, Message-ID and boundaries are generated by go-mail on first use; every successful output must equal the first; distinct by (configuration, operation sequence, map starts)")
 			r.Assume("map iteration order is owned through a runtime build-overlay seam (start offset 0..7 for maps of <= 8 entries)", "for S/MIME the per-render outer boundary and signature value are excluded: the signed entity and the remaining top-level fields are compared",
 				"Send output compares modulo the transport's final CRLF", "8bit file content with bare LF/CR compares modulo line-break canonicalisation across the Send path (the dot-writer canonicalises it; such content is illegal on the wire)")
 			if !mapseam.Enabled {
